@@ -118,6 +118,25 @@ CLAIMED = {
                      "correspondence over the type matrix",
         "design_ref": "DESIGN.md section 7 (C06)",
     },
+    "C07": {
+        "text": "Theorems over ALL byte strings (below 2^63 bytes), all sources states (any position, any injected fault) and all "
+                "histories of reader calls: C07_record (decoding one record never panics), C07_index_parse / C07_open (parsing "
+                "the index and opening never panic; a reader opened on bytes satisfies the bounds RB), C07_no_panic (every "
+                "history of iterate / random access / seek / count / size hint runs to completion: every call returns a value, "
+                "never a panic, and RB holds again - the model carries the machine arithmetic: `as` wraps, checked usize "
+                "additions, validated counts and offsets), C07_bounded_index (an iteration with index ends after at most one "
+                "item per remaining index entry), C07_bounded_noindex (without index, on a fault-free source: at most "
+                "(bytes left)/12 shapes and one error, then the end). Tie: single-field boundary substitution on every 32-bit "
+                "field of valid .shp/.shx files, consistent-but-unbacked counts, truncations, extensions, bit flips, random "
+                "tails; dev profile (overflow checks, debug assertions) and release; model and code must agree on every value "
+                "and error kind.",
+        "note": COMMON_NOTE + "Stack exhaustion, allocator abort and wall-clock hang are runtime behaviours the model does not "
+                "exhibit; the harness guards them (catch_unwind, watchdog, pull cap). The no-index bound is proved for "
+                "fault-free sources (faults: C13).",
+        "technique": "Coq proof (panic-freedom as a closure property of reading programs, bounds invariant of the reader state "
+                     "machine, termination measures) + differential correspondence on a malformed-input stream, dev and release",
+        "design_ref": "DESIGN.md section 7 (C07)",
+    },
     "C09": {
         "text": "Theorems over every history of calls {write s, finalize} (any shapes of any types, rejected writes included; any "
                 "length), with or without index destination, ending in drop or finalize-then-drop: C09_finalize_irrelevant (both "
